@@ -3,6 +3,7 @@ import McpModel.Resume.Model
 import McpModel.Resume.Monitor
 import McpModel.Resume.HoldMon
 import McpModel.Resume.BatchMon
+import McpModel.Resume.FanMon
 /-!
 Driver for E5 (C08, C10).
 
@@ -40,6 +41,7 @@ structure DSess where
   calls     : List (String × Option ReqId × Bool) := []   -- pending server→client calls: tag, ctx, ctxNew
   names     : List SId := []        -- stream ids in order of first appearance: printed name of `names[i]` is t(i+1)
   reqIds    : List ReqId := []      -- every request id ever POSTed on this session (to enumerate `requestStreams`)
+  subscribed : Bool := false        -- `resources/subscribe` was answered: entitled to `resources/updated`
 
 structure DMon where
   core   : Mon.MonS String String := { store := false, jsonMode := false }   -- the typed monitor core
@@ -50,6 +52,9 @@ structure DMon where
   batch  : Mon.BatchS String := {}                                          -- the typed core of the batch clauses (C02)
   extraB : Option String := none                                            -- batch clause of the last record
   inflight : List (String × Nat) := []                                      -- (session, id): calls accepted and not yet finished by their handler
+  fan    : Mon.FanS String Nat := {}                                        -- the typed core of the fan-out clause (C10)
+  extraF : Option String := none                                            -- fan-out clause of the last record
+  subs   : List String := []                                                -- sessions whose resources/subscribe was answered (from the operations)
 
 structure DState where
   cfg    : Option Cfg := none
@@ -61,6 +66,7 @@ structure DState where
   evicts : List (String × String × Nat) := []   -- evictions the store reported in this record, not yet applied to the model
   ptoks  : List String := []                    -- their tokens (echoed in the model's observation)
   win    : Bool := false                        -- `racerg`: the harness reports that the write was parked inside the window
+  af     : Bool := false                        -- `emit … af=1` / `resp … af=1`: the `EventStore.Append` of this op's write fails
 
 def getSess (d : DState) (n : String) : Option DSess := d.sess.find? (·.name == n)
 
@@ -258,6 +264,13 @@ def applyLabels (d : DState) (s : DSess) (ls : List (Label String)) : DState × 
       s := ((List.range s.conn.nextSid).filter fun sid => (s.conn.store sid).isSome).foldl nameSid s
     return (d, s, res)
 
+/-- one WRITE; with `d.af` its `EventStore.Append` fails (`writeFR`: nothing is appended, the message is still delivered) -/
+def applyWrite (d : DState) (s : DSess) (msg : Msg String) (ctx : Option ReqId) (ctxNew : Bool) : DState × DSess × Res :=
+  if d.af then
+    let r := writeFR s.conn msg ctx ctxNew
+    (d, { s with conn := r.1 }, r.2)
+  else applyLabels d s [.write msg ctx ctxNew]
+
 /-- exchanges of `s` that are attached to some stream (their handler is hanging) -/
 def hanging (s : DSess) : List ExId := sortNat (s.conn.streams.filterMap (·.attached))
 
@@ -330,9 +343,71 @@ def withSess (d : DState) (n : String) (f : DSess → OpOut) : OpOut :=
   | some s => f s
   | none => { d := d, snaps := [n] }
 
+/-- `get <sess> hv= last= b=` -/
+def getOp (d : DState) (n : String) (toks : List String) : OpOut :=
+  withSess d n fun s =>
+    if s.stateless then let (d1, t) := handlerExch d 405; { d := d1, extra := [t], endsX := [d1.nex], snaps := [n] } else
+    if s.gone then let (d1, t) := handlerExch d 404; { d := d1, extra := [t], endsX := [d1.nex], snaps := [n] } else
+    let (d1, s1, _) := applyLabels d s [.get (parseHdr s (kvGet toks "last")) (parseVer (kvGet toks "hv")) (parseBudget (kvGet toks "b"))]
+    let (d2, s2) := settle d1 s1
+    { d := putSess d2 s2, snaps := [n] }
+
+/-- a notification written by the server side of session `n` (payload `p`, request context `ctx`): nothing once the
+jsonrpc2 layer no longer reaches the transport; a broken write (session closed) cancels the handlers in flight -/
+def notifWrite (d : DState) (n : String) (p : String) (ctx : Option ReqId) : DState :=
+  match getSess d n with
+  | none => d
+  | some s =>
+    if s.dead || (s.closing && s.parked.isEmpty) then d else
+    let (d1, s1, res) := applyLabels d s [.write (.notif p) ctx false]
+    let s1 := if res == .broken then { s1 with dead := true, parked := [] } else s1
+    let (d2, s2) := settle d1 s1
+    putSess d2 s2
+
 /-- the model's reaction to one harness op -/
 def modelOp (d : DState) (toks : List String) : Option OpOut :=
   match toks with
+  | "plain" :: n :: _ =>
+    -- a request that is answered at once (resources/subscribe): POST, then the response on its own stream
+    let id := ((kvGet toks "id").bind String.toNat?).getD 0
+    let v := parseVer (kvGet toks "hv")
+    some <| withSess d n fun s =>
+      if s.gone then let (d1, t) := handlerExch d 404; { d := d1, extra := [t], endsX := [d1.nex], snaps := [n] } else
+      let dup := (s.conn.reqStreams id).isSome
+      let s := { s with reqIds := s.reqIds ++ [id] }
+      let (d1, s1, _) := applyLabels d s ([.post [id] false v (parseBudget (kvGet toks "b"))] ++
+        (if dup then [] else [.write (.resp id s!"R.{id}.plain") (some id) false]))
+      let s1 := if dup then s1 else { s1 with subscribed := true }
+      let (d2, s2) := settle d1 s1
+      { d := putSess d2 s2, snaps := [n] }
+  | "fanout" :: rest =>
+    -- `Server.ResourceUpdated` issued while a request of one session is in flight: every subscribed, live session gets
+    -- its copy, written with the BACKGROUND context in that session (label FANOUT of the world model), whatever context
+    -- the caller passed
+    match rest.span (· != "|") with
+    | ([n, r, x, hb, serial], _ :: names) =>
+      let p := "F." ++ ".".intercalate [n, r, x, hb, serial]
+      let d' := d.sess.foldl (fun (acc : DState) (s0 : DSess) =>
+        match getSess acc s0.name with
+        | none => acc
+        | some s => if s.subscribed && !s.gone then notifWrite acc s.name p none else acc) d
+      some { d := d', snaps := names, tail := " w=ok" }
+    | _ => none
+  | "getp" :: rest =>
+    -- a resume of session `n`; while it is served (after `EventStore.After` took its snapshot) a handler of ANOTHER session
+    -- writes `nn` notifications: the resume is one atomic GET label (`replay_atomic_wrt_eviction`), the writes follow;
+    -- the evictions the store reports are applied at the end of the op, as always
+    match rest.span (· != "|") with
+    | (n :: gargs, [_, bn, r, x, flag, nn, serial]) =>
+      let o1 := getOp d n gargs
+      let rid := r.toNat?.getD 0
+      let cnt := ((kvGet [nn] "n").bind String.toNat?).getD 0
+      let ser := serial.toNat?.getD 0
+      let ctx := if flag == "c" then some rid else none
+      let d2 := (List.range cnt).foldl (fun (acc : DState) i =>
+        notifWrite acc bn ("N." ++ ".".intercalate [bn, r, x, flag, toString (ser + i)]) ctx) o1.d
+      some { o1 with d := d2, snaps := [n, bn] }
+    | _ => none
   | "init" :: n :: _ =>
     let id := ((kvGet toks "id").bind String.toNat?).getD 0
     let v := parseVer (kvGet toks "v")
@@ -404,7 +479,7 @@ def modelOp (d : DState) (toks : List String) : Option OpOut :=
     some <| withSess d n fun s =>
       let rid := r.toNat?.getD 0
       let tag := ".".intercalate [n, r, x, flag, serial]
-      let isCall := kind == "C"
+      let isCall := kind == "C" || kind == "P" || kind == "R"      -- sampling, ping, roots/list: server→client requests
       let ctx := if flag == "c" then some rid else none
       let ctxNew := s.newProto && flag == "c"
       if isCall && s.newProto then
@@ -414,7 +489,7 @@ def modelOp (d : DState) (toks : List String) : Option OpOut :=
         { d := d, snaps := [n], tail := " w=closing" }
       else
         let msg : Msg String := if isCall then .call ("C." ++ tag) else .notif ("N." ++ tag)
-        let (d1, s1, res) := applyLabels d s [.write msg ctx ctxNew]
+        let (d1, s1, res) := applyWrite d s msg ctx ctxNew
         -- a broken write makes jsonrpc2 cancel every handler in flight
         let s1 := if res == .broken then { s1 with dead := true, parked := [] } else s1
         let s1 := if isCall && res == .ok then { s1 with calls := s1.calls ++ [(tag, ctx, ctxNew)] } else s1
@@ -431,7 +506,7 @@ def modelOp (d : DState) (toks : List String) : Option OpOut :=
         let (d2, s2) := settle d s
         { d := putSess d2 s2, snaps := [n] }
       else
-        let (d1, s1, res) := applyLabels d s [.write (.resp rid (".".intercalate ["R", r, n, r, x])) (some rid) s.newProto]
+        let (d1, s1, res) := applyWrite d s (.resp rid (".".intercalate ["R", r, n, r, x])) (some rid) s.newProto
         let s1 := if res == .broken then { s1 with dead := true } else s1
         let (d2, s2) := settle d1 s1
         { d := putSess d2 s2, snaps := [n] }
@@ -460,13 +535,7 @@ def modelOp (d : DState) (toks : List String) : Option OpOut :=
         let (d1, s1, _) := applyLabels d s [.cut ex]
         let (d2, s2) := settle d1 s1
         { d := putSess d2 s2, snaps := [n] }
-  | "get" :: n :: _ =>
-    some <| withSess d n fun s =>
-      if s.stateless then let (d1, t) := handlerExch d 405; { d := d1, extra := [t], endsX := [d1.nex], snaps := [n] } else
-      if s.gone then let (d1, t) := handlerExch d 404; { d := d1, extra := [t], endsX := [d1.nex], snaps := [n] } else
-      let (d1, s1, _) := applyLabels d s [.get (parseHdr s (kvGet toks "last")) (parseVer (kvGet toks "hv")) (parseBudget (kvGet toks "b"))]
-      let (d2, s2) := settle d1 s1
-      { d := putSess d2 s2, snaps := [n] }
+  | "get" :: n :: _ => some (getOp d n toks)
   | ["delete", n] =>
     some <| withSess d n fun s =>
       if s.gone then let (d1, t) := handlerExch d 404; { d := d1, extra := [t], endsX := [d1.nex], snaps := [n] } else
@@ -585,12 +654,17 @@ def parseEvId (id : String) : Mon.EvId :=
     | none => .bad
   | none => .bad
 
-/-- provenance of a payload tag: `R.<id>.<sess>.<req>.x<post>`, `N|C|X.<sess>.<req>.x<post>.<c|d>.<serial>` -/
+/-- provenance of a payload tag: `R.<id>.<sess>.<req>.x<post>`, `N|C|X.<sess>.<req>.x<post>.<c|d>.<serial>`,
+`F.<sess>.<req>.x<post>.<h|b>.<serial>` (a copy of a server-level notification issued inside that handler) -/
 def provOf (p : String) : Mon.Prov String :=
   match p.splitOn "." with
   | ["R", id, "init"] => match id.toNat? with
     | some i => .initResp i
     | none => .other
+  | ["R", id, "plain"] => match id.toNat? with      -- the answer to `plain` (resources/subscribe): known by its id only
+    | some i => .initResp i
+    | none => .other
+  | ["F", s, r, x, hb, _] => .fanout s (r.toNat?.getD 0) (parseX x) (hb == "h")
   | ["R", id, s, r, x] => match id.toNat?, r.toNat? with
     | some i, some q => .resp i s q (parseX x)
     | _, _ => .other
@@ -657,7 +731,8 @@ def originOf (toks : List String) : String × Mon.Origin :=
   | some "init" => (opSess, .post ((kvGet toks "id").bind String.toNat?).toList false np)
   | some "listen" => (opSess, .post ((kvGet toks "id").bind String.toNat?).toList true true)
   | some "call" => (opSess, .post (parseIds (kvGet toks "ids")) false np)
-  | some "get" => (opSess, .get (parseHdrObs (kvGet toks "last")) np)
+  | some "plain" => (opSess, .post ((kvGet toks "id").bind String.toNat?).toList false np)
+  | some "get" | some "getp" => (opSess, .get (parseHdrObs (kvGet toks "last")) np)
   | some "racewg" | some "racegw" | some "racerg" =>
     let g := toks.dropWhile (· != "|")
     ((g[1]?).getD opSess, .get (parseHdrObs (kvGet g "last")) np)
@@ -741,7 +816,48 @@ def parseBObs (toks : List String) (impl : String) : Mon.BObs String String :=
       if plain t && t.endsWith "." && !t.contains ':' then some (parseX ((t.splitOn ".").headD "")) else none,
     snaps := itoks.filterMap parseBSnap }
 
-def DMon.init (store jsonMode : Bool) : DMon := { core := Mon.init store jsonMode }
+/-- snapshot `S<name>[t0:x3:o:4::s;t2:-:c:0:1:s:L|…]D?` as the fan-out clause sees it -/
+def parseFSnap (tok : String) : Option (String × Bool × List (Mon.FRow Nat)) :=
+  if !tok.startsWith "S" || (tok.splitOn "[?]").length > 1 then none else
+  match tok.splitOn "[" with
+  | [nm, rest] =>
+    let name := (nm.drop 1).toString
+    let done := rest.endsWith "D"
+    match ((rest.splitOn "]").headD "").splitOn "|" with
+    | rowsTxt :: _ =>
+      let rows := (rowsTxt.splitOn ";").filterMap fun r =>
+        match r.splitOn ":" with
+        | t :: att :: op :: _ :: _ :: js :: more =>
+          (parseT t).map fun n =>
+            ({ t := n, att := if att.startsWith "x" then some (parseX att) else none, opn := op == "o",
+               sse := js == "s", listen := more.contains "L" } : Mon.FRow Nat)
+        | _ => none
+      some (name, done, rows)
+    | _ => none
+  | _ => none
+
+/-- the implementation's observation of one record as the fan-out clause (C10) sees it; `subs` = the sessions entitled
+to a copy according to the operations so far -/
+def parseFObs (subs : List String) (toks : List String) (impl : String) : Mon.FObs String String Nat :=
+  let itoks := words impl
+  { fan := match toks with
+      | "fanout" :: rest => match rest.span (· != "|") with
+        -- (judged only when the server's call took place and returned: `w=ok`; `nocall` = the issuing handler does not exist)
+        | ([n, r, x, hb, serial], _) => if itoks.contains "w=ok" then some ("F." ++ ".".intercalate [n, r, x, hb, serial], subs) else none
+        | _ => none
+      | _ => none,
+    appends := itoks.filterMap fun t =>
+      match t.splitOn ":" with
+      | "a" :: s :: _ :: rest => let p := ":".intercalate rest; if p == "-" then none else some (s, p)
+      | _ => none,
+    sent := (itoks.filterMap parseSent).flatMap fun x =>
+      match x.out with
+      | .message _ p => [(x.k, p)]
+      | .json ps => ps.map fun p => (x.k, p)
+      | _ => [],
+    snaps := itoks.filterMap parseFSnap }
+
+def DMon.init (store jsonMode : Bool) : DMon := { core := Mon.init store jsonMode, fan := Mon.fanInit store }
 
 /-- Evaluate the monitors on one record of the implementation: the typed core, plus two checks that relate
 the *operation* to the observation (a response the handler produced must not vanish). -/
@@ -750,8 +866,17 @@ def DMon.onRecord (m : DMon) (d : DState) (toks : List String) (impl : String) :
   let r := Mon.step provOf m.core (parseObs d toks impl)
   let hr := Mon.holdStep m.hold (parseHObs toks impl)
   let br := Mon.batchStep m.batch (parseBObs toks impl)
+  let fr := Mon.fanStep m.fan (parseFObs (m.subs.filter fun n => !m.gone.contains n) toks impl)
   let m : DMon := { m with core := r.1, hold := hr.1, extra08 := hr.2.map Mon.ClauseH.text,
-                           batch := br.1, extraB := br.2.map Mon.ClauseB.text }
+                           batch := br.1, extraB := br.2.map Mon.ClauseB.text,
+                           fan := fr.1, extraF := fr.2.map Mon.ClauseF.text }
+  -- a session is entitled to resources/updated once its resources/subscribe has been answered
+  let m : DMon := match toks with
+    | "plain" :: n :: _ =>
+      let id := (kvGet toks "id").getD "0"
+      if kvGet toks "m" == some "sub" && (itoks.any fun t => t.endsWith s!"/R.{id}.plain" || t.endsWith s!",R.{id}.plain")
+          && !m.subs.contains n then { m with subs := m.subs ++ [n] } else m
+    | _ => m
   let (m, extra) : DMon × Option String := match toks with
     | "init" :: _ :: _ =>
       let id := (kvGet toks "id").getD "0"
@@ -809,9 +934,12 @@ def engine (prop : String) : Engine DState where
       ({ d with cfg := some (mkCfg d (mode == "stateless")) }, { model := "ok" })
     | _ =>
       if d.cfg.isNone then (d, { model := "nocfg" }) else
+      -- `af=1` (last token of an `emit` / `resp`): the event store fails the `Append` of this op's write
+      let af := toks.getLast? == some "af=1" && (toks.head? == some "emit" || toks.head? == some "resp") && d.store
+      let toks := if toks.getLast? == some "af=1" then toks.dropLast else toks
       -- evictions are choices of the store (they depend on byte sizes): the model takes them from the record
       let itoks0 := words impl
-      let d := { d with evicts := parsePurges itoks0, ptoks := itoks0.filter (·.startsWith "p:"), win := itoks0.contains "win=1" }
+      let d := { d with evicts := parsePurges itoks0, ptoks := itoks0.filter (·.startsWith "p:"), win := itoks0.contains "win=1", af := af }
       -- (they happen inside `Append`, before the new entry is added: for a plain op they take effect at its end —
       -- nothing in it reads the store after an append —, the race ops place them between their two parties)
       match modelOp d toks with
@@ -831,14 +959,14 @@ def engine (prop : String) : Engine DState where
         -- first violated clause of the requested property: typed core, then the op-level clause
         let v08 := (v.v08.map Mon.Clause08.text).orElse fun _ => m.extra08
         let ext := fun (p : String) => m.extra10.filter (·.startsWith p)
-        let v10 := (v.v10.map Mon.Clause10.text).orElse fun _ => ext "C10"
+        let v10 := ((v.v10.map Mon.Clause10.text).orElse fun _ => ext "C10").orElse fun _ => m.extraF
         let v02 := (ext "C02").orElse fun _ => m.extraB
         let mviol := if prop == "C08" then v08 else if prop == "C10" then v10 else if prop == "C02" then v02
           else (v10.orElse fun _ => v08).orElse fun _ => v02
         let crashed := impl.startsWith "panic" || (words impl).contains "w=panic" || (impl.splitOn "PANIC").length > 1
         let viol := if crashed then some ((if prop == "" then "C08" else prop) ++ ": the server panicked while handling this operation")
                     else mviol
-        ({ dn with mon := m, evicts := [], ptoks := [] }, { model := model, violated := viol })
+        ({ dn with mon := m, evicts := [], ptoks := [], af := false }, { model := model, violated := viol })
 
 end Resume
 
